@@ -10,6 +10,7 @@ import numpy as np
 from .. import install, refs, gen, reach
 from ..install import ctx as _ctx
 
+REPO_TESTS_UNDER_CONTRACTS = True
 RULE = ('cases = (data kind, real/complex, N in 3..200, order in 1..min(N-1,30), container); '
         'non-trivial when order >= 2 and the data are not a pure constant; distinct = distinct descriptor')
 ASSUMPTIONS = ['biased autocorrelation computed by the monitor with numpy dot products',
